@@ -189,7 +189,11 @@ func runC08Tracker(t *rapid.T) {
 	var hist []string
 	logf := func(f string, a ...any) { hist = append(hist, fmt.Sprintf(f, a...)) }
 	logf("tracker(rf=%d,head=%d,commit=%d)", rf, head0, commit0)
-	head, next := head0, head0
+	// synced: what the leader's log holds durably. The leader announces it to the tracker (AdvanceHeadOffset) from
+	// the sync callback, i.e. a moment after the log readers (the follower cursors) can already see the entry:
+	// head <= synced <= next, and a follower may acknowledge anything up to synced.
+	head, next, synced := head0, head0, head0
+	ackAboveHead := false
 	type cursor struct {
 		acker   server.CursorAcker
 		acked   int64 // acked prefix: every offset <= acked counts for this cursor
@@ -258,9 +262,19 @@ func runC08Tracker(t *rapid.T) {
 			}
 			logf("NextOffset=%d", got)
 		},
+		"logSynced": func(t *rapid.T) {
+			if synced >= next {
+				t.Skip("nothing allocated beyond the synced offset")
+			}
+			synced++
+			logf("log synced up to %d", synced)
+		},
 		"advanceHead": func(t *rapid.T) {
-			if head >= next {
-				t.Skip("nothing allocated beyond head")
+			if head >= synced {
+				if synced >= next {
+					t.Skip("nothing allocated beyond head")
+				}
+				synced++
 			}
 			head++
 			logf("AdvanceHead(%d)", head)
@@ -294,8 +308,11 @@ func runC08Tracker(t *rapid.T) {
 				cu.acker.Ack(o)
 				return
 			}
-			if cu.nextAck > head {
+			if cu.nextAck > synced {
 				t.Skip("follower has nothing new to ack")
+			}
+			if cu.nextAck > head {
+				ackAboveHead = true
 			}
 			for _, other := range cursors {
 				if other != cu && other.acked < cu.nextAck {
@@ -355,6 +372,9 @@ func runC08Tracker(t *rapid.T) {
 	}
 	if outOfOrderAcross {
 		labels = append(labels, "cross_follower_out_of_order")
+	}
+	if ackAboveHead {
+		labels = append(labels, "ack_before_the_leader_announced_its_own_sync")
 	}
 	evid.Case("C08", dupAck && outOfOrderAcross, strings.Join(hist, "; "), labels...)
 }
